@@ -56,6 +56,10 @@ type Options struct {
 	WaitFunc func() time.Duration
 	Peer     notify.Peer
 
+	// Called (under the component's lock!) with the bytes handed to the broadcast function.
+	OnNflogBroadcast   func(in *Instance, b []byte)
+	OnSilenceBroadcast func(in *Instance, b []byte)
+
 	Log    *Log   // shared event log (created when nil)
 	Script Script // decides the outcome of every delivery attempt (nil = always succeed)
 	Debug  io.Writer
@@ -278,6 +282,7 @@ func Start(o Options) (*Instance, error) {
 		a.Stop(context.Background())
 		return nil, fmt.Errorf("verif hook OnSetup was never reached")
 	}
+	in.installBroadcastRecorders()
 	in.Log.Add(Event{T: time.Now(), Kind: "start", Instance: in.Name})
 	return in, nil
 }
